@@ -16,6 +16,7 @@ import ModVerif.Proofs.EditRefineValid
 import ModVerif.Proofs.EditMoreStartW
 import ModVerif.Proofs.EditMoreKeepF
 import ModVerif.Proofs.EditWorkKeepB
+import ModVerif.Proofs.EditReparseF
 namespace ModVerif.Props.C08
 open ModVerif ModVerif.EditSpec ModVerif.Modfile
 
@@ -396,5 +397,47 @@ example :
               y.before == x.before && y.suffix == x.suffix)
           | _ => false))
      | .error _ => false) = true := by decide +kernel
+
+/-! ### `refines_abs`, the re-parse half (Proofs/EditReparse*.lean; C15 `typed_eq_reparse_partial2`) -/
+
+/-- **refines_abs, re-parse half (partial).**  For every go.mod text accepted by the strict parser whose directives have
+    non-empty keys and readable values (`Edit.AbsOK`: canonical versions fitting the path's major version, readable paths — C02's
+    "well-formed"), without block suffix comment and with settable markers (the two recorded findings excluded by C15's
+    `typed_eq_tree_partial4_static`), and every statically valid session of go.mod operations with readable arguments
+    (`Edit.ArgsOK`): if the session has an outcome, the strict re-parse of the formatted file succeeds and holds exactly what
+    the step table predicts from the starting file — scalars equal, every directive list equal as a multiset (`Edit.AbsPerm`;
+    the ORDER of the re-parsed lists is the order of the lines in the file, which SortBlocks changes, so list equality would
+    be false), retractions compared by interval (rationales: the recorded `C15_violated_retract_*` findings) — and each
+    operation succeeds exactly when the table says so.
+    Assumed of the final tree (decidable, `Edit.finalTreeB`): blocks carry block verbs, comments stand where the parser puts
+    them (see Props/C15.lean, section "The typed lists equal the strict re-parse"). -/
+theorem refines_abs_reparse_partial (file : Bytes) (ops : List Edit.Op) (o : Edit.Outcome) (f : File)
+    (hf : parseStrict (B "go.mod") file none = .ok f) (hk : Edit.WellFormedKeys f) (hs : Edit.NoBlockSuffix f.syn)
+    (hm : Edit.MarkersSettable f.syn.stmts) (hstart : Edit.AbsOK (Edit.absOf f)) (hv : Edit.StaticValid false ops)
+    (hmod : ∀ op ∈ ops, Edit.IsModOp op) (hargs : ∀ op ∈ ops, Edit.ArgsOK op.toSpec)
+    (h : Edit.sessionMod file ops = some o) (htree : Edit.finalTreeB o.tree = true) :
+    ∃ r, o.reparsed = some r ∧ Edit.AbsPerm r (run stdValidity o.start (ops.map Edit.Op.toSpec)) ∧
+      o.res = runOk stdValidity o.start (ops.map Edit.Op.toSpec) := by
+  obtain ⟨r, hr, hp, hrel⟩ := Edit.typed_eq_reparse_session2 file ops o f hf hk hs hm hstart hv hmod hargs h htree
+  have h3 := (sessionMod_refines_wellformed file ops o f hf hk (Edit.StaticValid.validArgs ops false hv hmod) h).2.2
+  exact ⟨r, hr, hp.trans (Edit.absPerm_of_rel hrel), h3⟩
+
+/-- non-vacuity: start conditions, static validity and readable arguments hold for a session that touches every list; the
+    outcome passes `finalTreeB`, and the re-parse is the step table's prediction up to the order of the exclude list -/
+example :
+    let src := B "module example.com/m\n\ngo 1.21\n\nrequire (\n\texample.com/a v1.0.0 // indirect\n\t// keep\n\texample.com/b v1.2.3\n)\n\nexclude (\n\texample.com/z v1.0.0\n\texample.com/y v1.0.0\n)\n"
+    let ops : List Edit.Op := [.addRequire (B "example.com/a") (B "v1.5.0"), .addExclude (B "example.com/z") (B "v1.1.0"),
+      .dropRequire (B "example.com/b"), .addTool (B "example.com/t"), .addReplace (B "example.com/a") [] (B "../a") [],
+      .cleanup, .setRequire [⟨B "example.com/a", B "v1.6.0", false⟩, ⟨B "example.com/c", B "v0.1.0", true⟩] false, .cleanup]
+    (match parseStrict (B "go.mod") src none with
+     | .ok f => Edit.startOKb f && f.syn.stmts.all (fun x => match x with
+         | .lineBlock b => b.comments.suffix.isEmpty
+         | _ => true) && decide (Edit.MarkersSettable f.syn.stmts) && Edit.absOKB (Edit.absOf f)
+     | .error _ => false) &&
+    Edit.staticValidB false ops && ops.all (fun op => Edit.argsOKB op.toSpec) &&
+    Edit.outcomeIs (Edit.sessionMod src ops) (fun o => Edit.finalTreeB o.tree &&
+      o.reparsed != some (run stdValidity o.start (ops.map Edit.Op.toSpec)) &&
+      (o.reparsed.map (·.require)) == some (run stdValidity o.start (ops.map Edit.Op.toSpec)).require) = true := by
+  decide +kernel
 
 end ModVerif.Props.C08
